@@ -1,0 +1,8 @@
+//go:build !verif
+
+package recovery
+
+import "time"
+
+func verifOnAttempt(int, error)  {}
+func verifOnDelay(time.Duration) {}
